@@ -158,7 +158,7 @@ def run_job(job):
                 seg["ops"].append({"op": "probe", "name": st["name"], "also": st.get("also", []), "listfirst": bool(st.get("listfirst"))})
                 seg["meta"].append({"step": st})
             elif do == "deps":
-                seg["ops"].append({"op": "deps", "name": st["name"]})
+                seg["ops"].append({"op": "deps", "name": st["name"], "how": st.get("how", "")})
                 seg["meta"].append({"step": st})
         flush()
         return {"prog0": job["prog"], "steps": job["steps"], "ev": events, "final": prog}
